@@ -1,5 +1,4 @@
-"""xtuml/meta.py -> lean/Gen/LinkDecisions.lean  (C02)
-
+"""xtuml/meta.py -> lean/Gen/LinkDecisions.lean:
 Translates the DECISION STRUCTURE of `Link.connect` and `Link.disconnect` — a chain of guarded early
 returns followed by the mutation — into Lean decision functions, reading the source with `ast` only.
 
